@@ -6,7 +6,7 @@
    - case_decides_instance: a correspondence case inside the subset on which `agree` and `holds` evaluate to true is an
      instance of the full agreement statement. *)
 From stdpp Require Import strings gmap sets pretty.
-From CG Require Import Model.FastVerilog Base.Sem Base.Fold Gen.Gen_fastv.
+From CG Require Import Model.FastVerilog Base.Sem Base.Fold Base.Compose Gen.Gen_fastv.
 Open Scope string_scope.
 
 (* parity of an operand list under a valuation: what `xor g(o, l...)` denotes *)
@@ -380,3 +380,92 @@ Proof.
   clear Hb1 Hb2. induction (a_items a) as [|it items IH]; [done|]. rewrite !bind_cons, IH. f_equal.
   destruct it; simpl; try done. by rewrite find_bb_first_last.
 Qed.
+
+(* ---- graphs identical up to the names of the constant nodes have the same consistent valuations *)
+Definition support (c : circuit) : gset string := dom c ∪ map_fold (λ _ i acc, n_fi i ∪ acc) ∅ c.
+Lemma support_dom c n : n ∈ dom c → n ∈ support c.
+Proof. unfold support. set_solver. Qed.
+Lemma support_fi c n i f : c !! n = Some i → f ∈ n_fi i → f ∈ support c.
+Proof.
+  intros Hn Hf. unfold support. apply elem_of_union_r. revert n i Hn Hf.
+  apply (map_fold_ind (λ acc c, ∀ n i, c !! n = Some i → f ∈ n_fi i → f ∈ acc)); [done|].
+  intros k j m acc Hk IH n i Hn Hf. apply lookup_insert_Some in Hn as [[-> ->]|[_ Hn]]; [set_solver|].
+  apply elem_of_union_r. eauto.
+Qed.
+
+Lemma set_map_ext_in (ρ σ : string → string) (s : gset string) :
+  (∀ x, x ∈ s → ρ x = σ x) → (set_map ρ s : gset string) = set_map σ s.
+Proof.
+  intros H. apply set_eq. intros y. rewrite !elem_of_map. split; intros (x & -> & Hx); exists x; split; auto.
+  symmetry; auto.
+Qed.
+
+Lemma rename_g_ext (ρ σ : string → string) `{!Inj (=) (=) σ} (c : circuit) :
+  (∀ n, n ∈ support c → ρ n = σ n) → rename_g ρ c = rename σ c.
+Proof.
+  intros H. unfold rename_g, rename.
+  assert (Hf : upd_fi (set_map ρ) <$> c = ren_info σ <$> c).
+  { apply map_fmap_ext. intros n i Hn. unfold upd_fi, ren_info. f_equal.
+    apply set_map_ext_in. intros x Hx. apply H. by eapply support_fi. }
+  rewrite Hf. unfold kmap. f_equal. apply list_fmap_ext. intros k [n i] Hk. unfold prod_map. simpl. f_equal.
+  apply H, support_dom. apply elem_of_list_lookup_2 in Hk. apply elem_of_map_to_list in Hk.
+  rewrite lookup_fmap in Hk. apply elem_of_dom. destruct (c !! n); [eauto|done].
+Qed.
+
+(* the renaming of one reader's constant nodes as a global involution: three transpositions *)
+Definition tie_swap (t0 t1 tx : string) (n : string) : string :=
+  if decide (n = t0) then "1'b0" else if decide (n = "1'b0") then t0 else
+  if decide (n = t1) then "1'b1" else if decide (n = "1'b1") then t1 else
+  if decide (n = tx) then "1'bx" else if decide (n = "1'bx") then tx else n.
+Definition distinct6 (t0 t1 tx : string) : Prop := NoDup [t0; t1; tx; "1'b0"; "1'b1"; "1'bx"].
+Lemma tie_swap_invol t0 t1 tx n : distinct6 t0 t1 tx → tie_swap t0 t1 tx (tie_swap t0 t1 tx n) = n.
+Proof.
+  unfold distinct6. rewrite !NoDup_cons. rewrite !elem_of_cons. intros H.
+  unfold tie_swap. repeat (case_decide; subst; try done); exfalso; naive_solver.
+Qed.
+Lemma tie_swap_inj t0 t1 tx : distinct6 t0 t1 tx → Inj (=) (=) (tie_swap t0 t1 tx).
+Proof. intros H a b Hab. rewrite <- (tie_swap_invol t0 t1 tx a H), Hab. by apply tie_swap_invol. Qed.
+Lemma tie_swap_id t0 t1 tx n : n ∉ [t0; t1; tx; "1'b0"; "1'b1"; "1'bx"] → tie_swap t0 t1 tx n = n.
+Proof. rewrite !elem_of_cons. intros H. unfold tie_swap. repeat (case_decide; subst; try done); exfalso; naive_solver. Qed.
+
+(* shape of a reader's result: on every name the graph mentions, the canonical renaming is that involution *)
+Definition tie_shape (c : circuit) (t0 t1 tx : string) : Prop :=
+  distinct6 t0 t1 tx ∧ ∀ n, n ∈ support c → cname c n = tie_swap t0 t1 tx n.
+
+Lemma consistent_ext c (v v' : val) : (∀ n, v n = v' n) → consistent c v → consistent c v'.
+Proof.
+  intros H Hc n i Hn. specialize (Hc n i Hn). unfold node_ok in *. destruct (is_free i); [done|]. rewrite <- (H n).
+  destruct (n_ty i); try done; rewrite <- (gate_val_ext _ v v'); try done; intros m _; apply H.
+Qed.
+
+Theorem untie_same_function cf cl f0 f1 fx l0 l1 lx :
+  tie_shape cf f0 f1 fx → tie_shape cl l0 l1 lx → untie_g cf = untie_g cl →
+  ∀ vf, consistent cf vf → ∃ vl, consistent cl vl ∧
+    ∀ n, n ∉ [f0; f1; fx; "1'b0"; "1'b1"; "1'bx"] → n ∉ [l0; l1; lx; "1'b0"; "1'b1"; "1'bx"] → vl n = vf n.
+Proof.
+  intros [Hdf Hf] [Hdl Hl] Heq vf Hvf.
+  pose proof (tie_swap_inj _ _ _ Hdf) as Hif. pose proof (tie_swap_inj _ _ _ Hdl) as Hil.
+  assert (E1 : untie_g cf = rename (tie_swap f0 f1 fx) cf) by (apply (rename_g_ext _ _ cf); exact Hf).
+  assert (E2 : untie_g cl = rename (tie_swap l0 l1 lx) cl) by (apply (rename_g_ext _ _ cl); exact Hl).
+  rewrite E1, E2 in Heq.
+  exists (vf ∘ tie_swap f0 f1 fx ∘ tie_swap l0 l1 lx). split.
+  - apply (proj1 (consistent_rename (tie_swap l0 l1 lx) cl (vf ∘ tie_swap f0 f1 fx))). rewrite <- Heq.
+    apply (proj2 (consistent_rename (tie_swap f0 f1 fx) cf (vf ∘ tie_swap f0 f1 fx))).
+    apply (consistent_ext cf vf); [|done]. intros m. simpl. by rewrite tie_swap_invol.
+  - intros n Hnf Hnl. simpl. by rewrite (tie_swap_id l0 l1 lx), (tie_swap_id f0 f1 fx).
+Qed.
+
+(* executable version for the oracle / examples: the tie names are read off the graph *)
+Definition pick_tie (c : circuit) (t : gtype) (d : string) : string :=
+  match elements (of_type c (is_ty t)) with [n] => n | _ => d end.
+Definition tie_shapeb (c : circuit) : bool :=
+  let t0 := pick_tie c C0 "?0" in let t1 := pick_tie c C1 "?1" in let tx := pick_tie c CX "?x" in
+  bool_decide (NoDup [t0; t1; tx; "1'b0"; "1'b1"; "1'bx"]) &&
+  forallb (λ n, bool_decide (cname c n = tie_swap t0 t1 tx n)) (elements (support c)).
+Lemma tie_shapeb_spec c : tie_shapeb c = true → ∃ t0 t1 tx, tie_shape c t0 t1 tx.
+Proof.
+  unfold tie_shapeb. intros [Hd Hall]%andb_true_iff. apply bool_decide_eq_true in Hd.
+  eexists _, _, _. split; [exact Hd|]. intros n Hn. rewrite forallb_forall in Hall.
+  specialize (Hall n). rewrite <- elem_of_list_In, elem_of_elements in Hall. apply Hall in Hn. by apply bool_decide_eq_true in Hn.
+Qed.
+
